@@ -379,7 +379,14 @@ def processCase (j : Json) (heavy : Bool := true) : E Verdict := do
   | "layout" =>
     let cfg ← parseCfg (← field j "cfg")
     let es ← parseEdges (← field j "edges")
-    evalLayout cfg es obs heavy
+    let v ← evalLayout cfg es obs heavy
+    -- inputs on which binary64 rounds (magnitudes near the top of the range): the exact predicates do not apply; what is decided is
+    -- that the call returned and that every coordinate is finite (a non-finite one does not decode: see `processLine`)
+    if ((j.getObjVal? "arg").toOption.bind (fun a => (a.getObjVal? "finiteonly").toOption)).isSome then
+      if v.items.any fun kv => (kv.1 == "C04" || kv.1 == "C05") && kv.2.startsWith "fail:nonfinite" then
+        pure { items := v.items.filter fun kv => kv.1 == "C01" || kv.2.startsWith "fail:nonfinite" }
+      else pure ((({ items := v.items.filter fun kv => kv.1 == "C01" } : Verdict).add "C04" true).add "C05" true)
+    else pure v
   | "multi" => evalMulti j obs
   | "concurrent" =>
     if let some c := fieldOpt obs "crash" then
@@ -410,7 +417,11 @@ def processLine (line : String) (heavy : Bool := true) : String :=
   | .ok j =>
     let id := (j.getObjVal? "id").toOption.bind (·.getStr?.toOption) |>.getD "?"
     match processCase j heavy with
-    | .error e => (Json.mkObj [("id", Json.str id), ("error", Json.str e)]).compress
+    | .error e =>
+      if e.startsWith "nonfinite:" then
+        (Json.mkObj [("id", Json.str id), ("v", Json.mkObj [("C04", Json.str s!"fail:non-finite output coordinate {e}"),
+          ("C05", Json.str s!"fail:non-finite output coordinate {e}")])]).compress
+      else (Json.mkObj [("id", Json.str id), ("error", Json.str e)]).compress
     | .ok v => (Json.mkObj [("id", Json.str id), ("v", Json.mkObj ((mergeItems v.items).map fun (k, s) => (k, Json.str s)))]).compress
 
 end Autog
